@@ -242,6 +242,7 @@ def run(rep):
             lines.append("Example ex_%s : accepts (gtop (o_G %s)) %s = true /\\ classify (o_tbl %s) %s = [%s].\nProof. vm_compute. split; reflexivity. Qed." % (
                 ob["oid"], ob["oid"], coq_bytes(s), ob["oid"], coq_bytes(s),
                 "; ".join('"%s"%%string' % n for n in expected_class(ob))))
+        lines += bridge_examples(p, plats[p])
         open(tf, "w").write("\n".join(lines) + "\n")
         rep.compile_props(tf)
 
@@ -262,6 +263,46 @@ def run(rep):
                 "regular language by a validated closed certificate; correspondence cases = (table, prompt string): members of each grammar "
                 "(boundary lengths favoured), one- and two-edit near-misses, carved-out strings; non-trivial = the prompt is matched by at least one level; "
                 "distinct = (platform, variant, string)")
+
+
+def bridge_examples(p, plat):
+    """The prompts the simulated device of the upper-layer checks (C01 / C03 / C04 / C13 run the real drivers over
+    harness/simdevice.py) prints in each mode ARE strings of this platform's C05 grammars, hence covered by C05_<platform>;
+    and they are classified as the share class those checks assume.  One Example per (mode, sub-mode decoration, banner)."""
+    from . import simdevice as sd
+    out = ["(* bridge to the simulated device of the upper-layer checks: its prompts are members of the grammars above *)"]
+    t = sd.PLATFORMS[p]()
+    modes = sorted({m for m in t["trans"] if m != "session"} | {m for acts in t["trans"].values() for a in acts.values() for m in [a[1]]})
+    obs = plat["info"]["obs"]
+    have_s1 = any(o["variant"] == "session:s1" for o in obs)
+    if "session" in t["trans"] and have_s1:
+        modes.append("session:s1")
+    k = 0
+    for m in modes:
+        for sub in t["submodes"]:
+            for banner in (["", "{master}"] if p == "juniper_junos" else [""]):
+                d = sd.SimDevice(platform=p, host="router1", user="admin", banner=banner, submode=sub)
+                try:
+                    text = t["prompt"](d, m)
+                except KeyError:
+                    continue
+                if sub and sub not in text:
+                    continue            # this mode carries no sub-mode decoration
+                text = text.rstrip(" ")  # get_prompt strips the trailing blank before classification
+                if m.startswith("session:"):
+                    variant, smode = "session:s1", "s1"
+                else:
+                    variant = "base"
+                    smode = "configuration" if m.startswith("configuration") else m
+                ob = [o for o in obs if o["variant"] == variant and o["mode"] == smode]
+                if not ob:
+                    continue
+                ob = ob[0]
+                k += 1
+                out.append("Example sim_%d : accepts (gtop (o_G %s)) %s = true /\\ classify (o_tbl %s) %s = [%s].\nProof. vm_compute. split; reflexivity. Qed." % (
+                    k, ob["oid"], coq_bytes(text.encode()), ob["oid"], coq_bytes(text.encode()),
+                    "; ".join('"%s"%%string' % n for n in expected_class(ob))))
+    return out
 
 
 def sample_member(rx, ob, rng, tries=60):
